@@ -154,14 +154,13 @@ def StdTable (tbl : FuncTable) : Prop :=
 
 instance (tbl : FuncTable) : Decidable (StdTable tbl) := by unfold StdTable; infer_instance
 
-/-- The registry has exactly the functions the evaluator model dispatches on (`Query.applyFn`): the five standard ones and
-    the type functions under both of their names, with the signatures the model gives them - nothing else is registered, so
-    every name the gate lets through is a name the model evaluates. -/
+/-- The registry has the functions the evaluator model dispatches on (`Query.applyFn`): the five standard ones and the type
+    functions under both of their names, with the signatures the model gives them. (A further registered function is no
+    concern of any property here and is not refused by this condition; the model answers `UNDEFINED` for it.) -/
 def ModelledTable (tbl : FuncTable) : Prop :=
   StdTable tbl ∧
   lookupFn tbl "typeof".toList = some ([.nodes], .value) ∧ lookupFn tbl "type".toList = some ([.nodes], .value) ∧
-  lookupFn tbl "isinstance".toList = some ([.nodes, .value], .logical) ∧ lookupFn tbl "is".toList = some ([.nodes, .value], .logical) ∧
-  tbl.length = 9
+  lookupFn tbl "isinstance".toList = some ([.nodes, .value], .logical) ∧ lookupFn tbl "is".toList = some ([.nodes, .value], .logical)
 
 instance (tbl : FuncTable) : Decidable (ModelledTable tbl) := by unfold ModelledTable; infer_instance
 
